@@ -703,6 +703,119 @@ def rule_r9(ctx):
     return rr
 
 
+def rule_r10(ctx):
+    """Namespace-stack discipline of the statement driver (oneliner.convert:convert)."""
+    rr = RuleResult("C06-R10", "the statement driver lowers every statement in the namespace on top of its namespace stack; push/pop of internal namespaces are paired")
+    rr.floor = 4
+    T = ctx.tmpl
+    fn = T.convert_fn
+    node = fn.node
+    # (a) the constructor call through the dispatch table
+    ctor = None
+    for n in ast.walk(node):
+        if isinstance(n, ast.Call) and (n.func is T.table_node or (isinstance(n.func, ast.Call) and n.func is T.table_node)):
+            ctor = n
+    if ctor is None:
+        for n in ast.walk(node):
+            if isinstance(n, ast.Call) and isinstance(n.func, ast.Subscript) and isinstance(n.func.value, ast.Name) and n.func.value.id == T.table_name:
+                ctor = n
+    if ctor is None:
+        raise AnalysisError("C06-R10: the constructor call through the dispatch table was not found in convert()")
+    kws = {k.arg: k.value for k in ctor.keywords}
+    args = list(ctor.args)
+    nsp_arg = kws.get("nsp", args[1] if len(args) > 1 else None)
+    glob_arg = kws.get("nsp_global", args[2] if len(args) > 2 else None)
+    rr.instances += 1
+    stack_name = None
+    if isinstance(nsp_arg, ast.Subscript) and isinstance(nsp_arg.value, ast.Name) and isinstance(nsp_arg.slice, ast.UnaryOp) and isinstance(nsp_arg.slice.op, ast.USub) and isinstance(nsp_arg.slice.operand, ast.Constant) and nsp_arg.slice.operand.value == 1:
+        stack_name = nsp_arg.value.id
+        rr.ok("ctor|nsp=stack[-1]", sample={"rule": "C06-R10", "constructor": ast.unparse(ctor)[:90]})
+    else:
+        rr.fail("C06-R10|convert|current-namespace", f"{fn.where()} line {ctor.lineno}: a statement is lowered with nsp=`{ast.unparse(nsp_arg) if nsp_arg is not None else None}` instead of the namespace on top of the namespace stack", where=fn.where(), what="ctor|nsp")
+        return rr
+    rr.instances += 1
+    gname = glob_arg.id if isinstance(glob_arg, ast.Name) else None
+    ginit = [n for n in ast.walk(node) if isinstance(n, ast.Assign) and any(isinstance(t, ast.Name) and t.id == gname for t in n.targets)]
+    sinit = [n for n in ast.walk(node) if isinstance(n, (ast.Assign, ast.AnnAssign)) and any(isinstance(t, ast.Name) and t.id == stack_name for t in (n.targets if isinstance(n, ast.Assign) else [n.target]))]
+    ok_init = (
+        gname is not None and len(ginit) == 1 and isinstance(ginit[0].value, ast.Call) and "generate_nsp" in ast.unparse(ginit[0].value.func)
+        and len(sinit) == 1 and isinstance(sinit[0].value, ast.List) and len(sinit[0].value.elts) == 1 and isinstance(sinit[0].value.elts[0], ast.Name) and sinit[0].value.elts[0].id == gname
+    )
+    if ok_init:
+        rr.ok("stack-init")
+    else:
+        rr.fail("C06-R10|convert|stack-init", f"{fn.where()}: the namespace stack is not initialised with exactly the global namespace that is also passed as nsp_global", where=fn.where(), what="stack-init")
+    # (c)/(d) pushes and pops of the namespace stack
+    pushes, pops = [], []
+    for n in ast.walk(node):
+        if isinstance(n, ast.Call) and isinstance(n.func, ast.Attribute) and isinstance(n.func.value, ast.Name) and n.func.value.id == stack_name:
+            if n.func.attr == "append":
+                pushes.append(n)
+            elif n.func.attr == "pop":
+                pops.append(n)
+            elif n.func.attr in ("insert", "extend", "clear", "remove"):
+                pushes.append(n)
+
+    def guard_of(call):
+        for n in ast.walk(node):
+            if isinstance(n, ast.If) and any(x is call for s in n.body for x in ast.walk(s)):
+                inner = [m for m in ast.walk(n) if isinstance(m, ast.If) and m is not n and any(x is call for s in m.body for x in ast.walk(s))]
+                if not inner:
+                    return n
+        return None
+
+    rr.instances += 1
+    bad = None
+    if len(pushes) != 1 or len(pops) != 1:
+        bad = f"{len(pushes)} pushes and {len(pops)} pops of the namespace stack (expected one each)"
+    else:
+        gp, gq = guard_of(pushes[0]), guard_of(pops[0])
+        def flag_of(g):
+            t = g.test if g is not None else None
+            return (t.value.id, t.attr) if isinstance(t, ast.Attribute) and isinstance(t.value, ast.Name) else None
+        fp, fq = flag_of(gp), flag_of(gq)
+        arg = pushes[0].args[0] if pushes[0].args else None
+        if fp is None or fq is None or fp[1] != fq[1]:
+            bad = f"push is guarded by `{ast.unparse(gp.test) if gp is not None else None}` and pop by `{ast.unparse(gq.test) if gq is not None else None}`: not the same property of the node"
+        elif not (isinstance(arg, ast.Call) and isinstance(arg.func, ast.Attribute) and isinstance(arg.func.value, ast.Name) and arg.func.value.id == fp[0]):
+            bad = f"the pushed namespace `{ast.unparse(arg) if arg is not None else None}` is not the internal namespace of the node that was just constructed"
+        else:
+            # the guard variables: pushed node = result of the constructor; popped node = popped pending node
+            def assigned_from(name):
+                return [n.value for n in ast.walk(node) if isinstance(n, ast.Assign) and any(isinstance(t, ast.Name) and t.id == name for t in n.targets)]
+            pv = assigned_from(fp[0])
+            qv = assigned_from(fq[0])
+            if not (len(qv) == 1 and isinstance(qv[0], ast.Call) and isinstance(qv[0].func, ast.Attribute) and qv[0].func.attr == "pop"):
+                bad = f"the pop of the namespace stack is guarded by `{fq[0]}`, which is not the node popped from the pending stack"
+            # the push must come after construction and before the children are requested
+            elif pushes[0].lineno < ctor.lineno and not any(isinstance(f, ast.FunctionDef) and any(x is ctor for x in ast.walk(f)) for f in ast.walk(node) if f is not node):
+                bad = "the internal namespace is pushed before the node is constructed"
+    if bad:
+        rr.fail("C06-R10|convert|push-pop-pairing", f"{fn.where()}: {bad}: statements of a function/class body would be lowered in the wrong namespace", where=fn.where(), what="pairing")
+    else:
+        rr.ok("pairing", sample={"rule": "C06-R10", "push": ast.unparse(pushes[0])[:70], "pop_guard": ast.unparse(guard_of(pops[0]).test)})
+    # has_internal_namespace is true exactly for the classes that define get_internal_namespace
+    rr.instances += 1
+    badc = []
+    for ci in T.statement_classes():
+        ca = ci.find_class_attr("has_internal_namespace")
+        flag = False
+        if ca is not None and ca[1][0] is not None:
+            try:
+                flag = bool(ctx.prog.eval_const(ca[0].module, ca[1][0]))
+            except Exception:
+                flag = None
+        m = ci.find_method("get_internal_namespace")
+        own = m is not None and m.cls is not None and not any(isinstance(x, ast.Raise) for x in ast.walk(m.node))
+        if flag is not None and bool(flag) != bool(own):
+            badc.append(ci.name)
+    if badc:
+        rr.fail("C06-R10|classes|has-internal-namespace", f"has_internal_namespace disagrees with the presence of get_internal_namespace for {badc}", what="flags")
+    else:
+        rr.ok("flags")
+    return rr
+
+
 def rule_r8(ctx):
     from .common import cached
     from .exprcopy import transf_entry_paths
@@ -732,7 +845,7 @@ def rule_r8(ctx):
 
 
 RULES = [
-    ("C06-R8", rule_r8), ("C06-R9", rule_r9),
+    ("C06-R8", rule_r8), ("C06-R9", rule_r9), ("C06-R10", rule_r10),
     ("C06-R1", rule_r1), ("C06-R2", rule_r2), ("C06-R3", rule_r3), ("C06-R4", rule_r4),
     ("C06-R5", rule_r5), ("C06-R6", rule_r6), ("C06-R7", rule_r7),
 ]
